@@ -766,6 +766,13 @@ func (e *Enc) enterLoop(fr *Frame, li *loopInfo, preds []*ssa.BasicBlock, conds 
 		v := e.fresh(phi.Type(), "loopphi:"+phi.Name()+":"+phi.Comment)
 		fr.vals[phi] = v
 		li.headPhis[phi] = v
+		if c, ok := countingLoopLowerBound(b, phi); ok {
+			// a counter that starts at a constant, is only ever incremented by a positive constant and
+			// guards the loop with "counter < bound" cannot wrap: it never drops below its start
+			if t, ok := v.(T); ok && t.Sort == SInt {
+				e.s.Assume(Ge(t, IntLit(c)))
+			}
+		}
 		if phi.Comment == "rangeindex" {
 			// the hidden counter of a range-over-slice loop starts at -1 and only ever grows by
 			// one while it is below a length: it is never below -1 (built-in invariant)
@@ -849,4 +856,59 @@ func (e *Enc) frameContract(fr *Frame) *FuncContract {
 		return e.fc
 	}
 	return e.eng.contractFor(fr.fn)
+}
+
+// countingLoopLowerBound recognises the header phi of "for i := c; i < n; i += d" (c, d constants,
+// d > 0, i of a signed or unsigned integer type) and returns c.
+func countingLoopLowerBound(head *ssa.BasicBlock, phi *ssa.Phi) (int64, bool) {
+	bt, ok := phi.Type().Underlying().(*types.Basic)
+	if !ok || bt.Info()&types.IsInteger == 0 || len(phi.Edges) != 2 {
+		return 0, false
+	}
+	var start int64
+	haveStart, haveStep := false, false
+	for _, ed := range phi.Edges {
+		switch x := ed.(type) {
+		case *ssa.Const:
+			if x.Value == nil || x.Value.Kind() != constant.Int {
+				return 0, false
+			}
+			v, exact := constant.Int64Val(x.Value)
+			if !exact {
+				return 0, false
+			}
+			start, haveStart = v, true
+		case *ssa.BinOp:
+			if x.Op != token.ADD || x.X != phi {
+				return 0, false
+			}
+			c, ok := x.Y.(*ssa.Const)
+			if !ok || c.Value == nil || c.Value.Kind() != constant.Int {
+				return 0, false
+			}
+			d, exact := constant.Int64Val(c.Value)
+			if !exact || d <= 0 {
+				return 0, false
+			}
+			haveStep = true
+		default:
+			return 0, false
+		}
+	}
+	if !haveStart || !haveStep {
+		return 0, false
+	}
+	// the header must end in "if phi < bound"
+	if len(head.Instrs) == 0 {
+		return 0, false
+	}
+	ifi, ok := head.Instrs[len(head.Instrs)-1].(*ssa.If)
+	if !ok {
+		return 0, false
+	}
+	cmp, ok := ifi.Cond.(*ssa.BinOp)
+	if !ok || cmp.Op != token.LSS || cmp.X != phi {
+		return 0, false
+	}
+	return start, true
 }
